@@ -479,6 +479,25 @@ func genC06(e *emitter, r *rng, thorough bool) {
 			e.emit("parse.mut", "der.parse "+hx(x))
 			e.emit("lax.mut", "der.lax "+hx(x))
 		}
+		// every value of every structural byte (sequence tag, total length, both integer tags, both integer lengths): a tag
+		// test through a mask (class bits, constructed bit, tag number) accepts a second spelling
+		if len(valid) > 8 && i < 3 {
+			rl := int(valid[3])
+			for _, pos := range []int{0, 1, 2, 3, 4 + rl, 5 + rl} {
+				if pos >= len(valid) {
+					continue
+				}
+				for v := 0; v < 256; v++ {
+					if byte(v) == valid[pos] {
+						continue
+					}
+					x := append([]byte{}, valid...)
+					x[pos] = byte(v)
+					e.emit(fmt.Sprintf("parse.structural-byte%d", pos), "der.parse "+hx(x))
+					e.emit(fmt.Sprintf("lax.structural-byte%d", pos), "der.lax "+hx(x))
+				}
+			}
+		}
 		// pairs of perturbations
 		for j := 0; j < 30; j++ {
 			x := append([]byte{}, muts[r.intn(len(muts))]...)
